@@ -129,13 +129,20 @@ func ParsePostgreSQLInterval(s string) (result time.Duration, err error) {
 	if err = adjustDuration(&result, matches[pgIntervalRegexp.SubexpIndex("days")], day); err != nil {
 		return
 	}
-	if err = adjustDuration(&result, matches[pgIntervalRegexp.SubexpIndex("hours")], time.Hour); err != nil {
+	hours := matches[pgIntervalRegexp.SubexpIndex("hours")]
+	// PostgreSQL writes one sign for the whole HH:MM:SS.ffffff part, in front of
+	// the hours (e.g. `-00:00:01.5`): it applies to every field of that part
+	timeSign := time.Duration(1)
+	if len(hours) != 0 && hours[0] == '-' {
+		timeSign = -1
+	}
+	if err = adjustDuration(&result, hours, time.Hour); err != nil {
 		return
 	}
-	if err = adjustDuration(&result, matches[pgIntervalRegexp.SubexpIndex("minutes")], time.Minute); err != nil {
+	if err = adjustDuration(&result, matches[pgIntervalRegexp.SubexpIndex("minutes")], timeSign*time.Minute); err != nil {
 		return
 	}
-	if err = adjustDuration(&result, matches[pgIntervalRegexp.SubexpIndex("seconds")], time.Second); err != nil {
+	if err = adjustDuration(&result, matches[pgIntervalRegexp.SubexpIndex("seconds")], timeSign*time.Second); err != nil {
 		return
 	}
 	// sub-seconds require more logic, as the scale depends on the length
@@ -150,7 +157,7 @@ func ParsePostgreSQLInterval(s string) (result time.Duration, err error) {
 		// len(subsecs) is in the range [1..9], so we know that
 		// int64(math.Pow10(...)) will be exactly correct, and evenly divide
 		// time.Second
-		subsecscale := time.Second / time.Duration(math.Pow10(len(subsecs)))
+		subsecscale := timeSign * time.Second / time.Duration(math.Pow10(len(subsecs)))
 		if err = adjustDuration(&result, subsecs, subsecscale); err != nil {
 			return
 		}
